@@ -401,6 +401,7 @@ fn spun_check(p: &Prog, with_bits: &BTreeSet<Vec<u64>>, rec: &mut Rec, include_e
             Err(Budget) => continue,
         };
         let (mut known, mut other) = (BTreeSet::new(), BTreeSet::new());
+        let mut other_src: Vec<Vec<u64>> = Vec::new();
         for o in &strong_q {
             let one: BTreeSet<Vec<u64>> = std::iter::once(o.clone()).collect();
             for m in map(&one) {
@@ -409,13 +410,31 @@ fn spun_check(p: &Prog, with_bits: &BTreeSet<Vec<u64>>, rec: &mut Rec, include_e
                         known.insert(m);
                     } else {
                         other.insert(m);
+                        other_src.push(o.clone());
                     }
                 }
             }
         }
         // a combination reachable through a known-class and through another reference execution counts as the latter
         known.retain(|m| !other.contains(m));
-        for (part, sig) in [(known, KNOWN_SPUN_SIG), (other, if mask == 0 { "without_spinning" } else { "after_spinning" })] {
+        // the reference program is a plain litmus program: a combination it allows and loom never produces gets the same
+        // history signature as in C02 (the features shared by every reference witness of every missing outcome), so that
+        // the SeqCst-load finding recorded there is recognised here as well
+        let mut feat: Option<Vec<&str>> = None;
+        for o in other_src.iter().take(8) {
+            let mut st2 = Stats { budget: 2_000_000, ..Default::default() };
+            let f = shared_features(&q, o, Variant::Strong, &mut st2).unwrap_or_default();
+            feat = Some(match feat {
+                None => f,
+                Some(prev) => prev.into_iter().filter(|x| f.contains(x)).collect(),
+            });
+        }
+        let other_sig = {
+            let mut v: Vec<&str> = feat.unwrap_or_default();
+            v.push(if mask == 0 { "without_spinning" } else { "after_spinning" });
+            v.join("+")
+        };
+        for (part, sig) in [(known, KNOWN_SPUN_SIG.to_string()), (other, other_sig)] {
             if !part.is_empty() {
                 rec.v("spin_missing_exit", sig, format!("combinations never produced by an execution in which {} (value | 2^40 marks an await that failed its check at least once): {} ; loom produced {}", if mask == 0 { "no loop spun" } else { "the loop spun" }, fmt_set(&part, 6), fmt_set(with_bits, 12)));
             }
